@@ -186,6 +186,14 @@ pub proof fn lemma_proposed(cs: Map<Key, Value>, key: Key)
                     overlay_read(contract_state@, state, contract_addr, key0, num_values as nat) == Ok::<Seq<Seq<i64>>, S::Error>(out.deep_view())'''}},
         props=('C03', 'C06')))
 
+    # the post-state view handed to the VM: its reads ARE the overlay (C03 composes with the routing proved in vm_core: a PostKeyRange op reads state.post())
+    so.item('struct PostStateArc')
+    so.impl('impl<S> StateRead for PostStateArc<S> where S: StateRead,', [
+        ('type', 'Error'),
+        ("spec", """    closed spec fn spec_key_range(&self, contract_addr: ContentAddress, key: Seq<i64>, num_values: usize) -> Result<Seq<Seq<i64>>, Self::Error> {
+        if (*self.0).state@.contains_key(contract_addr) { overlay_read((*self.0).state@[contract_addr]@, &self.1, contract_addr, key, num_values as nat) }
+        else { self.1.spec_key_range(contract_addr, key, num_values) } }"""),
+        F('key_range', props=('C03',))], trait_impl=True)
     for e in ('enum PredicatesError', 'struct PredicateErrors', 'enum PredicateError', 'struct ProgramErrors', 'enum ProgramError',
               'struct ConstraintsUnsatisfied', 'enum MutationsError'):
         so.item(e)
